@@ -142,6 +142,9 @@ class EncodingDB:
                     try:
                         cid2unicode[cid] = name2unicode(cast(str, x.name))
                     except (KeyError, ValueError) as e:
+                        # The code now selects a glyph without a Unicode value;
+                        # it no longer selects the glyph of the base encoding.
+                        cid2unicode.pop(cid, None)
                         log.debug(str(e))
                     cid += 1
         return cid2unicode
